@@ -71,7 +71,23 @@ func run(dir string, timeout time.Duration, env []string, stdin string, name str
 // Compile runs `kddp kompiliere main -o out extra...` in dir.
 func Compile(dir, main, out string, extra ...string) Result {
 	args := append([]string{"kompiliere", main, "-o", out}, extra...)
-	return run(dir, 120*time.Second, []string{"DDPPATH=" + DDPPath()}, "", Kddp(), args...)
+	r := run(dir, 120*time.Second, []string{"DDPPATH=" + DDPPath()}, "", Kddp(), args...)
+	if r.Exit != 0 && !ToolchainPresent() {
+		// the build directory vanished under the run (infrastructure): never a verdict about the tree
+		r.TimedOut = true
+		r.Stderr += "\nharness: toolchain directory " + Work + " is incomplete"
+	}
+	return r
+}
+
+// ToolchainPresent reports whether the build directory of this run is still complete.
+func ToolchainPresent() bool {
+	for _, p := range []string{Kddp(), filepath.Join(Work, "ddp/lib/libddpruntime.a"), filepath.Join(Work, "ddp/lib/ddp_list_types_defs.ll"), filepath.Join(Work, "ddp/Duden/Ausgabe.ddp"), filepath.Join(Work, ".ok")} {
+		if _, err := os.Stat(p); err != nil {
+			return false
+		}
+	}
+	return true
 }
 
 // Exec runs a compiled program with the patched de_DE locale.
@@ -100,7 +116,12 @@ func LinkObject(dir, obj, exe string, asan bool, listDefs bool, extra ...string)
 		args = append(args, filepath.Join(lib, "ddp_list_types_defs.o"))
 	}
 	args = append(args, "-lddpruntime", "-lm", filepath.Join(lib, "main.o"))
-	return run(dir, 120*time.Second, nil, "", "gcc", args...)
+	r := run(dir, 120*time.Second, nil, "", "gcc", args...)
+	if r.Exit != 0 && !ToolchainPresent() {
+		r.TimedOut = true
+		r.Stderr += "\nharness: toolchain directory " + Work + " is incomplete"
+	}
+	return r
 }
 
 // Classify the stderr/exit of a program run.
